@@ -6,7 +6,14 @@ Import ListNotations.
 Close Scope string_scope.
 Open Scope nat_scope.
 
-Definition tk (t : toktype) := {| typ := t; val := ""%string |}.
+(* the canonical spelling of the operator tokens the printer writes *)
+Definition spelling (t : toktype) : string :=
+  match t with
+  | TAnd => "AND" | TOr => "OR" | TNot => "NOT" | TTO => "TO" | TLParen => "(" | TRParen => ")" | TPlus => "+" | TMinus => "-"
+  | TTilde => "~" | TCarrot => "^" | TColon => ":" | TEqual => "=" | TGreater => ">" | TLess => "<"
+  | TLSquare => "[" | TRSquare => "]" | TLCurly => "{" | TRCurly => "}" | _ => ""
+  end%string.
+Definition tk (t : toktype) := {| typ := t; val := spelling t |}.
 
 
 Definition cmp_op (cmp : token) (withEq : bool) : operator :=
